@@ -405,7 +405,7 @@ def main(ck):
     if not ck.replay:
         progs = fault_programs(rng, 400 if quick else 4000)
         fouts = run_lex(binary, [{"hex": p["src"].encode().hex(), "mode": p["mode"], "parse": True, "run": True,
-                                  "budget_ms": 3000} for p in progs])
+                                  "budget_ms": 30000} for p in progs])
         for p, o in zip(progs, fouts):
             nfault += 1
             floc[p["kind"]] = floc.get(p["kind"], 0) + 1
